@@ -119,6 +119,23 @@ def r2(ctx):
             frm = render(locs.chase(cs[0]["args"][0]))
             to = render(locs.chase(cs[0]["args"][1]))
             ok = src == "function_arg" and "function_args[0]" in frm and "function_args[1]" in to
+        # decided by evaluation when the arm can be read by the finite interpreter (any spelling of the argument checks)
+        import interp
+
+        def call(node, recv, args, it, env):
+            callee = str(node.get("callee", ""))
+            if callee.endswith("Variant::from_string") and args and isinstance(args[0], str):
+                return (("text", args[0]),)
+            if callee.endswith("Variant::empty"):
+                return (("empty",),)
+            return None
+        try:
+            r1_ = interp.eval_in(ctx.anchor_hir(GET_VALUE), a["body"], {"function_arg": "a-b-c", "function_args": ["-", "+"]}, call=call)
+            r2_ = interp.eval_in(ctx.anchor_hir(GET_VALUE), a["body"], {"function_arg": "a-b-c", "function_args": ["-"]}, call=call)
+            r3_ = interp.eval_in(ctx.anchor_hir(GET_VALUE), a["body"], {"function_arg": "xyx", "function_args": ["x", ""]}, call=call)
+            ok = r1_ == ("text", "a+b+c") and r2_ == ("empty",) and r3_ == ("text", "y")
+        except interp.Undecided:
+            pass
         ctx.obligation(ok)
         if not ok:
             ctx.violation("operand/Replace", ctx.where(GET_VALUE, a["body"]), "REPLACE(str, from, to) must be str.replace(arg0, arg1)")
